@@ -22,9 +22,10 @@ C01 — the exactly solvable reference model and the crossing-probability estima
         P̂(λ_k | λ_{k-1}) = Σ_rows frac_k/w_k · [max ≥ λ_k]  /  Σ_rows frac_k/w_k
     for data column k ≥ 1 (ensemble [(k-1)+]), only rows with frac_k > 0 and w_k > 0 counting.
 
-(3) The shooting kernel's length factor, in the two variants of C09: as the property states it
-    (accept iff ξ ≤ n_old/n_new) and as the code is (accept iff ξ ≤ n_old/(n_new+1), because
-    `add_to_path` fails a trial whose last admissible frame crosses).
+(3) The shooting kernel's length factor, in the two variants of C09: as the property states it and
+    as the code is since the repair f955162 (accept iff ξ ≤ n_old/n_new), and as the snapshot's
+    code was (accept iff ξ ≤ n_old/(n_new+1), because `add_to_path` failed a trial whose last
+    admissible frame crossed).
 
 No imports: this file is part of the compiled driver.
 -/
@@ -116,8 +117,8 @@ def Row.scaleCol (k : Nat) (c d : Rat) (r : Row) : Row :=
 /-! ### (3) shooting on lattice paths: the length factor -/
 
 inductive Variant where
-  | stated   -- accept iff ξ ≤ n_old / n_new                  (property C09 as worded)
-  | asIs     -- accept iff ξ ≤ n_old / (n_new + 1)            (the code: add_to_path at length == maxlen)
+  | stated   -- accept iff ξ ≤ n_old / n_new                  (property C09 as worded; the code since f955162)
+  | asIs     -- accept iff ξ ≤ n_old / (n_new + 1)            (the snapshot: add_to_path at length == maxlen)
 deriving Repr, DecidableEq
 
 def minR (a b : Rat) : Rat := if a ≤ b then a else b
